@@ -109,6 +109,8 @@ def call(I, name, args, e):
         return UNIT
     if n == 'alloc::vec::from_elem':
         v, cnt = args
+        if not hasattr(I, 'alloc_atoms'): I.alloc_atoms = set()
+        I.alloc_atoms |= {u for u in subterms(cnt) if u[0] == 'a'} if is_term(cnt) else set()
         _, ga = split_generics(ty)
         el = ga[0]
         if el == 'u8': return SeqV('u8', [('rep', cnt, None, (('int', v, 1),))])
@@ -207,6 +209,30 @@ def call(I, name, args, e):
         nm = (base.name or 'str') + '.split(%s,from=%s)' % (show(args[1]), show(lo))
         return IterV(SeqV('&str', [('sym', ('a', nm))], name=nm), False, kind='split')
 
+    # ---------------- TryFrom between integers / Result
+    mm = re.match(r'^core::convert::num::(?:ptr_try_from_impls::)?<impl core::convert::TryFrom<(\w+)> for (\w+)>::try_from$', n)
+    if mm:
+        tb = int_bits(mm.group(2))
+        if not is_term(a0) or tb is None: return I.top('try_from', e)
+        c = b_and(cmp('le', ZERO, a0), cmp('le', a0, C((1 << tb) - 1)))
+        if c == TRUE: return EnumV('core::result::Result', 'Ok', {'0': a0}, ty=ty)
+        ev = EnumV('core::result::Result', None, sym=('a', I.fresh_name('try_from')), ty=ty)
+        ev.payload_cache[('Ok', '0')] = a0
+        ev.some_cond = cmp('le', a0, C((1 << tb) - 1)) if rng(a0)[0] >= 0 else c
+        ev.ok_variant = 'Ok'
+        return ev
+    if n in ('core::result::Result::<T, E>::unwrap', 'core::result::Result::<T, E>::expect'):
+        if not isinstance(a0, EnumV): return I.top('unwrap of %r' % (a0,), e)
+        if a0.variant == 'Ok': return a0.fields['0']
+        if a0.variant == 'Err':
+            I.st.dead = True; return UNIT
+        c = getattr(a0, 'some_cond', None) or ('isvar', a0.sym, 'Ok')
+        I.guards.append({'cond': c, 'sp': e.get('sp'), 'kind': 'unwrap'})
+        I.log.append(('guard', c, e.get('sp')))
+        def bad():
+            I.st.dead = True; return UNIT
+        return I.branch([(c, lambda: I.enum_payload(a0, 'Ok', '0')), (TRUE, bad)])
+
     # ---------------- Option
     if n == 'core::option::Option::<T>::as_ref':
         if isinstance(a0, EnumV): return a0
@@ -244,8 +270,14 @@ def call(I, name, args, e):
             ev.payload_cache[('Some', '0')] = r
             ev.some_cond = c
             return ev
-        if op == 'checked_add':
-            return I.top('checked_add', e)
+        if op in ('checked_add', 'checked_mul'):
+            r = add(a0, args[1]) if op == 'checked_add' else mul(a0, args[1])
+            c = cmp('le', r, C((1 << bits) - 1))
+            if c == TRUE: return opt_some(r)
+            ev = EnumV('core::option::Option', None, sym=('a', I.fresh_name(op)), ty='core::option::Option<%s>' % m.group(1))
+            ev.payload_cache[('Some', '0')] = r
+            ev.some_cond = c
+            return ev
     if n == 'core::char::methods::<impl char>::to_digit':
         c = a0; radix = args[1]
         t = ('call', 'to_digit', c, radix); sym.CALL_RANGE[t] = (0, 35)
